@@ -162,16 +162,17 @@ Additions for models/sparse_combo.py (the Gibbs blocks of LegacySparseDrugComboI
   bare `return`       in a function with cfg["implicit_return"] (a method that mutates self and returns None): the function
                       ends with the implicit return value of the state at that point.  Without cfg["implicit_return"]
                       it stays `return None`.
-  cfg["try_prims"]    [(source text of the ONE statement that may raise, with holes; variable; Gallina template; type;
-                      {hole: type}; Gallina pattern of a successful answer; its type)]:
-                      `try: S1; S2 ... except: B` (a bare `except:` or `except Exception:`, no else / finally) whose FIRST
-                      statement S1 matches the text (its right-hand side is the declared primitive - the only statement of the
-                      try body that the configuration says may raise) is
-                          bind a <- template; match a with <success pattern binding the variable> => [S1 with its right-hand
-                          side replaced by the variable]; S2 ... ; rest | _ => B; rest end
-                      i.e. the primitive's answer says whether it raised (the model's VFail answer of an MVN draw).  The
-                      configuration TRUSTS that no other statement of the try body raises.  Any other try statement, a handler
-                      that binds the exception or re-raises, and jumps inside either part are refused.
+  cfg["try_prims"]    [(expression pattern with holes, Gallina template, {hole: type}, Gallina pattern of a successful answer
+                      over {x}, type of the value)]:
+                          try:    T = <pattern>; S2; ...
+                          except: B                       (bare `except:` or `except Exception:`; no else / finally / `as`)
+                      where the right-hand side of the FIRST statement of the try body matches a declared pattern - the only
+                      expression of the try body that the configuration says may raise - is
+                          bind a <- template; match a with <success pattern binding x> => T = x; S2; ...; rest | _ => B; rest end
+                      i.e. the primitive's answer says whether it raised (the model's VFail answer of an MVN draw; the template
+                      denotes a computation of such an answer in the configuration's monad).  The configuration TRUSTS that no
+                      other statement of the try body raises.  Any other try statement, and continue / break / return / raise
+                      inside either part, are refused.
 """
 import ast
 
@@ -286,6 +287,9 @@ class Tr:
                             {h: parse_type(t) for h, t in (x[4] if len(x) > 4 else {}).items()})
                            for x in cfg.get("stmt_prims", [])]
         self.globals = set(rn(g) for g in cfg.get("globals", []))
+        # try/except around one declared primitive: (pattern, template, hole types, success pattern, value type)
+        self.try_prims = [(pat(x[0]), x[1], {h: parse_type(t) for h, t in x[2].items()}, x[3], parse_type(x[4]))
+                          for x in cfg.get("try_prims", [])]
         # keyword-argument calls: {callee: (template, result type, [(parameter, type, default term or None)])}
         self.kwcalls = {rn(f): (t, parse_type(ty), [(p, parse_type(pt), d) for p, pt, d in ps])
                         for f, (t, ty, ps) in cfg.get("kwcalls", {}).items()}
@@ -780,6 +784,9 @@ class Tr:
                 for c in st.cases:
                     for n in self.assigned(c.body):
                         add(n)
+            elif isinstance(st, ast.Try) and self.try_prims:
+                for n in self.assigned(st.body) + [x for h in st.handlers for x in self.assigned(h.body)]:
+                    add(n)
             else:
                 raise Unsupported("statement: " + ast.unparse(st)[:80])
         return out
@@ -1085,6 +1092,8 @@ class Tr:
             return self.loop(st, rest, env, k, ind)
         if isinstance(st, ast.Match):
             return self.block([self.match_to_if(st)] + rest, env, k, ind)
+        if isinstance(st, ast.Try) and self.try_prims:
+            return self.try_stmt(st, rest, env, k, ind)
         if isinstance(st, ast.With):
             x, ctx = self.with_item(st)
             if self.has_jump(st.body, (ast.Continue,) if self.cfg.get("with_return") else (ast.Continue, ast.Return)):
@@ -1101,6 +1110,38 @@ class Tr:
             txt = "%slet %s : %s := %s in\n" % (ind, x, coq_type(ty), tmpl.format(**args))
             return self.bind_hoist(hoist, txt, ind) + self.block(list(st.body) + rest, env2, k, ind)
         raise Unsupported("statement: " + ast.unparse(st)[:80])
+
+    # ---- try / except around one declared primitive (cfg["try_prims"])
+    def try_stmt(self, st, rest, env, k, ind):
+        """try: T = <declared primitive>; S2 ... except: B   ->   bind a <- template; match a with ok x => T = x; S2 ...; rest | _ => B; rest end"""
+        if st.orelse or st.finalbody or len(st.handlers) != 1:
+            raise Unsupported("try statement other than try / one except")
+        h = st.handlers[0]
+        if h.name is not None or not (h.type is None or (isinstance(h.type, ast.Name) and h.type.id == rn("Exception"))):
+            raise Unsupported("except clause other than a bare `except:` / `except Exception:`")
+        jumps = (ast.Continue, ast.Return, ast.Break, ast.Raise)
+        if any(isinstance(n, jumps) for part in (st.body, h.body) for x in part for n in ast.walk(x)):
+            raise Unsupported("continue / break / return / raise inside try / except")
+        first = st.body[0]
+        if not (isinstance(first, ast.Assign) and len(first.targets) == 1):
+            raise Unsupported("try body that does not start with an assignment of a declared primitive")
+        for patn, tmpl, argtys, okpat, vty in self.try_prims:
+            binds = {}
+            if self.unify(patn, first.value, binds):
+                hoist, args = [], {}
+                for kk, v in binds.items():
+                    a, at = self.expr(v, env, hoist)
+                    args[kk[2:]] = self.need(a, at, argtys[kk[2:]], hoist) if kk[2:] in argtys else a
+                ans, val = self.new("a"), self.new("tryval")
+                env_ok = dict(env)
+                env_ok[val] = vty
+                ok_first = ast.copy_location(ast.Assign(targets=first.targets, value=ast.Name(id=val, ctx=ast.Load())), first)
+                t_ok = self.block([ok_first] + list(st.body[1:]) + rest, env_ok, k, ind + "    ")
+                t_ex = self.block(list(h.body) + rest, env, k, ind + "    ")
+                txt = "%s%s %s <- %s;\n%smatch %s with\n%s| %s =>\n%s%s| _ =>\n%s%send\n" % (
+                    ind, self.M["bind"], ans, tmpl.format(**args), ind, ans, ind, okpat.format(x=val), t_ok, ind, t_ex, ind)
+                return self.bind_hoist(hoist, txt, ind)
+        raise Unsupported("try body whose first statement is not a declared primitive: " + ast.unparse(first)[:80])
 
     # ---- with blocks (cfg["contexts"]) and statement-run primitives (cfg["stmt_prims"])
     def with_item(self, st):
